@@ -1,5 +1,5 @@
 (* Compiled only when EqOrdCasesCheck.v fails: locate the differing cases.
-   Output: per domain (in the order of `doms`) the failing pairs
+   Output (the descriptor / policy / hash parts are lists over the key types: DefiniteDescriptorKey, dpk, str): per domain (in the order of `doms`) the failing pairs
    (i, j, impl (==,cmp,hash), model, structurally equal),
    the ids whose recorded hash stream differs from hash_raw, pairs whose dump/term identity is off,
    the failing descriptor pairs (i, j, impl (==,cmp), model),
@@ -9,4 +9,4 @@
    that differ from desc_feed / cpol_feed). *)
 From Verif Require Import EqOrdRun EqOrdDescRun EqOrdPolRun EqOrdHashModel EqOrdCasesGen.
 
-Eval vm_compute in (map dom_diag doms, map dom_stream_diag doms, map dom_spec_diag doms, deqdom_diag ddom_eq, deqdom_wdiag ddom_eq, map poldom_diag poldoms, hashdom_diag hashdom_run).
+Eval vm_compute in (map dom_diag doms, map dom_stream_diag doms, map dom_spec_diag doms, map deqdom_diag ddoms, map deqdom_wdiag ddoms, map poldom_diag poldoms, map hashdom_diag hashdoms).
